@@ -33,7 +33,8 @@ def gen_line(rng) -> str:
             c += rng.choice([" because reasons", " # another", " 'quoted'", ' "dq"', "  "])
     else:
         c = rng.choice(["#noqa", "# NOQA", "# noqa:FURB123", "# noqa: ", "# noqa:", "# noqa FURB123", "# type: ignore  # noqa", "# noqa # noqa: FURB114",
-                        "# noqa: FURB123 # noqa"])
+                        "# noqa: FURB123 # noqa", "# noqa: E501  # noqa", "# noqa  # type: ignore", "# noqa: E501 # noqa: FURB123", "# noqa  # noqa: E501",
+                        "# noqa: E501  # noqa: ABC100, FURB114  # why"])
     tail = rng.choice(["", "", " ", "\t", "\x0c"]) if rng.random() < 0.3 else ""
     return body + sp + c + tail
 
@@ -51,7 +52,7 @@ def gen_content(rng) -> tuple[str, list[str]]:
 def run(ctx: Ctx) -> None:
     ctx.trusted_base += [
         "Coq 8.16.1 kernel",
-        "Lib/Noqa.v: hand-written model of get_source_lines / is_ignored_via_comment (the regex as a leftmost search); tied by the correspondence below",
+        "Lib/Noqa.v: hand-written model of get_source_lines / is_ignored_via_comment (leftmost search for a hash-noqa with no quote after it, every comment from there on); tied by the correspondence below",
         "Python's definition of a physical line: LF, CRLF, CR only (language reference 2.1.2)",
     ]
     ctx.rule("generated files (1-6 lines; bodies with quotes, '#', earlier `# noqa` text, non-ASCII, FF/VT/FS/GS/RS/NEL/LS/PS inside literals; all comment styles; LF/CRLF/CR; BOM) "
@@ -127,16 +128,23 @@ def run(ctx: Ctx) -> None:
 
 
 def oracle(line: str, code: str) -> bool:
-    """`# noqa` at the end of the physical line suppresses everything; `# noqa: A, B`
-    (comma/space separated, no quotes after it) suppresses the listed codes."""
-    import re
+    """The property's reading of one physical line.  The comment text starts at the first
+    `# noqa` that no quote follows; it may hold several `#` comments; a bare `noqa` comment
+    suppresses everything, `noqa: A, B` (comma/space separated) the listed codes, and every
+    other comment nothing."""
     s = line.rstrip()
-    m = re.search(r"# noqa(?:: ([^'\"]*))?$", s)
-    if not m:
+    i = s.find("# noqa")
+    while i >= 0 and ("'" in s[i:] or '"' in s[i:]):
+        i = s.find("# noqa", i + 1)
+    if i < 0:
         return False
-    if m.group(1) is None:
-        return True
-    return code in m.group(1).replace(",", " ").split(" ")
+    for part in s[i:].split("#"):
+        part = part.strip()
+        if part == "noqa":
+            return True
+        if part.startswith("noqa: ") and code in part[len("noqa: "):].replace(",", " ").split(" "):
+            return True
+    return False
 
 
 def metamorphic(ctx: Ctx) -> None:
@@ -146,6 +154,8 @@ def metamorphic(ctx: Ctx) -> None:
     from refurb.settings import Settings
     rng = ctx.rng
     stmts = ["a{i} = int(0)", "b{i} = not not a0", "print('')", "c{i} = str('') and not not a0", "d{i} = 1",
+             "k{i} = int(0)  # noqa: E501", "l{i} = not not a0  # an ordinary comment", "m{i} = str('#') and not not a0", "n{i} = int(0)  # noqa: FURB999, E501",
+             "o{i} = int(0)  # type: ignore[misc]", "p{i} = str('# noqa: E501') and int(0)",
              "e{i} = int(\n    0\n)", "f{i} = [\n    not not a0,\n    int(0),\n]", "for g{i} in (1,):\n    print('')", "h{i} = (a0\n    if a0 else 2)"]
     specials = ["s{i} = 'x\x0cy'", "s{i} = 'x\x0by'", "s{i} = 'x\x1cy'", "s{i} = 'x y'", "s{i} = 'x\x85y'", "# comment \x0c here", "s{i} = '''a\nb'''"]
     with tempfile.TemporaryDirectory(prefix="c08m-") as td:
